@@ -1346,4 +1346,118 @@ theorem buildWith_store (cfg : Cfg) (ts : List Ty) (r : Str) (ks : List Key)
   | nil => exact absurd hs hst
   | cons n rest => rfl
 
+/-! ### the support output folder and support files -/
+
+theorem nodeOr_base (cfg : Cfg) (st : Store) (k : Key) : (nodeOr cfg st k).base = baseOf cfg st k := by
+  unfold nodeOr baseOf; cases findNode st k <;> simp [mkNode]
+
+theorem baseOf_eq (cfg : Cfg) (st : Store) (k : Key) :
+    baseOf cfg st k = ((findNode st k).map (·.base)).getD (basePath cfg) := by
+  unfold baseOf; cases findNode st k <;> rfl
+
+theorem baseOf_step1 (cfg : Cfg) (s : S1) (t : Ty) (k : Key) :
+    baseOf cfg (step1 cfg s t).store k = baseOf cfg s.store k := by
+  rw [baseOf_eq, findNode_step1]
+  by_cases h : k = t.ns
+  · subst h; simp [nodeOr_base]
+  · simp [h, baseOf_eq]
+
+theorem baseOf_step2 (same : Key → Key → Bool) (cfg : Cfg) (st : Store) (k k' : Key) :
+    baseOf cfg (step2By same cfg st k) k' = baseOf cfg st k' := by
+  rw [baseOf_eq, findNode_step2]
+  by_cases hp : k.dropLast = []
+  · by_cases h1 : k' = k
+    · subst h1; simp [hp, nodeOr_base]
+    · simp [hp, h1, baseOf_eq]
+  · by_cases h1 : k' = k
+    · subst h1; simp [hp, nodeOr_base]
+    · by_cases h2 : k' = k.dropLast
+      · subst h2; simp [hp, h1, nodeOr_base]
+      · simp [hp, h1, h2, baseOf_eq]
+
+theorem baseOf_foldl_step1 (cfg : Cfg) (ts : List Ty) (s : S1) (k : Key) :
+    baseOf cfg (ts.foldl (step1 cfg) s).store k = baseOf cfg s.store k := by
+  induction ts generalizing s with
+  | nil => rfl
+  | cons t r ih => simp only [List.foldl_cons]; rw [ih, baseOf_step1]
+
+theorem baseOf_foldl_step2 (same : Key → Key → Bool) (cfg : Cfg) (ks : List Key) (st : Store) (k : Key) :
+    baseOf cfg (ks.foldl (step2By same cfg) st) k = baseOf cfg st k := by
+  induction ks generalizing st with
+  | nil => rfl
+  | cons a r ih => simp only [List.foldl_cons]; rw [ih, baseOf_step2]
+
+theorem baseOf_loops (same : Key → Key → Bool) (cfg : Cfg) (ts : List Ty) (ks : List Key) (k : Key) :
+    baseOf cfg (loop2By same cfg (loop1 cfg ts).store ks) k = basePath cfg := by
+  unfold loop2By loop1
+  rw [baseOf_foldl_step2, baseOf_foldl_step1]
+  rfl
+
+theorem baseOf_finish (cfg : Cfg) (st : Store) (h : ∀ k, baseOf cfg st k = basePath cfg) (k : Key) :
+    baseOf cfg (finish cfg st).store k = basePath cfg := by
+  unfold finish
+  cases st with
+  | nil =>
+    have : [mkNode cfg [[]]] = (getOrMake cfg [] [[]]).1 := by simp [getOrMake, hasKey]
+    simp only [this]
+    rw [baseOf_eq, findNode_getOrMake']
+    by_cases hk : k = [[]] <;> simp [hk, nodeOr_base, baseOf, findNode]
+  | cons n rest => exact h k
+
+theorem takeWhile_append_stop {α} (p : α → Bool) (a : List α) (c : α) (b : List α)
+    (ha : ∀ x ∈ a, p x = true) (hc : p c = false) : (a ++ c :: b).takeWhile p = a := by
+  induction a with
+  | nil => simp [List.takeWhile_cons, hc]
+  | cons x r ih => simp [List.takeWhile_cons, ha x (by simp), ih (fun y hy => ha y (by simp [hy]))]
+
+theorem dropWhile_append_stop {α} (p : α → Bool) (a : List α) (c : α) (b : List α)
+    (ha : ∀ x ∈ a, p x = true) (hc : p c = false) : (a ++ c :: b).dropWhile p = c :: b := by
+  induction a with
+  | nil => simp [List.dropWhile_cons, hc]
+  | cons x r ih => simp [List.dropWhile_cons, ha x (by simp), ih (fun y hy => ha y (by simp [hy]))]
+
+/-- `resource.name` = `stem.suffix` with a single, proper suffix: `with_suffix` replaces the suffix. -/
+theorem stemOf_dotted (stem suf : Str) (h1 : stem ≠ []) (h2 : suf ≠ []) (h3 : '.' ∉ suf) :
+    stemOf (stem ++ '.' :: suf) = stem := by
+  have hall : ∀ x ∈ suf.reverse, (decide (x ≠ '.')) = true := by
+    intro x hx
+    have : x ∈ suf := by simpa using hx
+    simp; intro e; subst e; exact h3 this
+  have hr : (stem ++ '.' :: suf).reverse = suf.reverse ++ '.' :: stem.reverse := by simp
+  unfold stemOf
+  simp only [hr]
+  rw [takeWhile_append_stop _ _ _ _ hall (by simp), dropWhile_append_stop _ _ _ _ hall (by simp)]
+  simp [h1, h2]
+
+theorem pjoin_oneseg (p : Path) (s : Str) (h1 : s ≠ []) (h2 : '/' ∉ s) (h3 : s ≠ ['.']) : pjoin p s = p ++ [s] := by
+  have ha : isAbs s = false := by
+    cases s with
+    | nil => exact absurd rfl h1
+    | cons c r =>
+      have hc : c ≠ '/' := by intro e; subst e; simp at h2
+      simp [isAbs, hc]
+  have hk : keepPart s = true := by simp [keepPart, h1, h3]
+  simp [pjoin, ha, segParts, splitSlash_noslash s h2, hk]
+
+theorem withSuffix_last (p : Path) (name ext : Str) (hn : name ≠ rootPart) (he : ValidExt ext) :
+    withSuffix (p ++ [name]) ext = .ok (p ++ [stemOf name ++ ext]) := by
+  have he' : validSuffix ext = true := he
+  unfold withSuffix
+  simp [he', List.getLast?_append, hn]
+
+theorem subFolders_idsegs (subs : List Str) (h : ∀ s ∈ subs, IdSeg s) : subFolders subs = subs := by
+  have key : ∀ (l : List Str) (p : Path), (∀ s ∈ l, IdSeg s) →
+      l.foldl (fun p s => pathJoin p (pjoin [] s)) p = p ++ l := by
+    intro l
+    induction l with
+    | nil => intro p _; simp
+    | cons a r ih =>
+      intro p hl
+      simp only [List.foldl_cons]
+      rw [pjoin_idseg [] a (hl a (by simp)), List.nil_append, pathJoin_rel _ _ (by
+        simp only [List.head?_cons]; exact fun e => idseg_ne_root (hl a (by simp)) (Option.some.inj e)),
+        ih _ (fun s hs => hl s (by simp [hs]))]
+      simp
+  simpa [subFolders] using key subs [] h
+
 end NunavutVerif.Namespace
